@@ -67,7 +67,8 @@ def tla_value(v):
     if isinstance(v, (set, frozenset)):
         return "{" + ", ".join(tla_value(x) for x in sorted(v, key=str)) + "}"
     if isinstance(v, (list, tuple)):
-        return "<<" + ", ".join(tla_value(x) for x in v) + ">>"
+        # cfg files cannot hold sequences: route through the wrapper module
+        return "EXPR:<<" + ", ".join(tla_value(x) for x in v) + ">>"
     raise TypeError(v)
 
 
